@@ -28,8 +28,11 @@ ENGINES = {
 class Spec:
     def __init__(self, engine, level, text, note, technique, design_ref, rule, assumptions,
                  shards=(NCPU, NCPU), timeout=(170, 3600), mem_gb=4, floor=(2, 2), nontrivial=None,
-                 model_keys=False, extra_args=None):
+                 model_keys=False, extra_args=None, also=None):
         self.engine = engine
+        # further engines whose shards are run for the same id and merged into the same result (e.g. the function-level
+        # enumeration of xcdrcheck plus the end-to-end scenarios of simcheck for C11)
+        self.also = also or []
         self.level = level
         self.text = text
         self.note = note
@@ -47,8 +50,8 @@ class Spec:
     def _tier_index(self, tier):
         return 0 if tier == "quick" else 1
 
-    def binary(self):
-        e = ENGINES[self.engine]
+    def binary(self, engine=None):
+        e = ENGINES[engine or self.engine]
         if e["package"] is None:
             # script engine (progcheck): an executable /verif/<workspace>/<workspace> that builds what it needs itself
             return os.path.join(vcommon.VERIF, e["workspace"], e["workspace"])
@@ -60,10 +63,21 @@ class Spec:
         b = self.binary()
         res = vcommon.run_shards(b, [pid, "--tier", tier, "--seed", str(seed)] + self.extra_args,
                                  self.shards[ti], self.timeout[ti], self.mem_gb)
+        for eng in self.also:
+            res += vcommon.run_shards(self.binary(eng), [pid, "--tier", tier, "--seed", str(seed)],
+                                      self.shards[ti], self.timeout[ti], self.mem_gb)
         return vcommon.merge(res)
 
     def replay(self, pid, path):
         b = self.binary()
+        # a replay of one of the additional engines names its scenario
+        try:
+            import json as _json
+            rj = _json.load(open(path))
+            if self.also and isinstance(rj.get("replay", rj), dict) and "scenario" in rj.get("replay", rj):
+                b = self.binary(self.also[0])
+        except Exception:
+            pass
         p = subprocess.run([b, pid, "--replay", path] + self.extra_args, env=vcommon.env_offline())
         return p.returncode
 
@@ -487,9 +501,9 @@ X_NOTE = ("Trusted: the own reference codec /verif/harness/xcdrcheck/src/refcode
           "on which vendors differ (wstring length convention; XCDR version/order of the key stream) are recorded as accepted "
           "alternatives, not findings (NOTES.md §6, DESIGN.md §7.4). Every failing case is reduced to the smallest failing shape before "
           "its signature is formed; each stored finding re-runs under --replay.")
-def xc(level, text, rule, assumptions, floor, timeout=(300, 7200)):
+def xc(level, text, rule, assumptions, floor, timeout=(300, 7200), also=None):
     return Spec("xcdrcheck", level, text, X_NOTE, "bounded-exhaustive enumeration of a type x value x representation lattice against a reference codec",
-                "DESIGN.md §4, /verif/harness/xcdrcheck/NOTES.md", rule, assumptions, floor=floor, timeout=timeout, mem_gb=8)
+                "DESIGN.md §4, /verif/harness/xcdrcheck/NOTES.md", rule, assumptions, floor=floor, timeout=timeout, mem_gb=8, also=also)
 
 reg("C09", xc("exploration",
     "All struct types of the lattice (quick 36 288: 1-2 members over 21 member kinds x {plain,key,optional} x {final,appendable,mutable} x "
@@ -508,8 +522,12 @@ reg("C10", xc("exploration",
     (1_000_000, 1000)))
 reg("C11", xc("exploration",
     "24 keyed shapes x outer extensibility (48 types, thorough 72) x ALL ORDERED PAIRS of lattice values: handle(a) == handle(b) iff the "
-    "XTypes key holders are equal (key members only, recursively).",
-    "all ordered value pairs of every keyed type of the lattice", ["key members capped at 8 lattice values, others 3"], (100_000, 50)))
+    "XTypes key holders are equal (key members only, recursively). End-to-end part (simcheck, added after seeded change C11-1): 5 types "
+    "whose key members are not the leading members (final, appendable, mutable, two keys apart, string key) x reliable/best-effort, "
+    "3 keys x {small sample = one DATA with key hash, 200-byte sample = DATA_FRAGs without key hash} x 2 payload contents + dispose: the "
+    "handle in the reader's SampleInfo equals the handle register_instance returned on the writer.",
+    "all ordered value pairs of every keyed type of the lattice; every sample of the end-to-end scenarios",
+    ["key members capped at 8 lattice values, others 3", "end-to-end part without injected faults"], (100_000, 50), also=["simcheck"]))
 reg("C12", xc("exploration",
     "Same keyed types, every value: instance handle == own key hash per 7.6.8 (zero padded when the MAXIMUM size of the key holder is <= 16, "
     "MD5 otherwise); a mismatch is explained by the smallest set of named deviations, each a finding.",
@@ -653,7 +671,7 @@ def gen_manifest():
             "add_only": True,
         },
         "engines": [{"name": k, "path": f"/verif/{v['workspace']}", "kind_free_text": v["kind"],
-                     "serves_properties": [pid for pid, s in CHECKS.items() if s.engine == k]}
+                     "serves_properties": [pid for pid, s in CHECKS.items() if s.engine == k or k in s.also]}
                     for k, v in ENGINES.items()],
         "checks": checks,
         "not_applicable": not_app,
